@@ -317,4 +317,6 @@ def run(P, R, tier):
     from . import c15
     from ..report import Remap
     c15.notification(P, Remap(R, {'C15.GRD.1': 'C18.GRD.3', 'C15.MPT.1': 'C18.GRD.3'}))
+    # dropping the whole logs section must revert its entries (the old present bit decides)
+    c15.removal_guard(P, Remap(R, {'C15.GRD.2': 'C18.GRD.4', 'C15.GRD.3': 'C18.GRD.4'}))
     return EXPLANATION, ASSUMPTIONS
